@@ -1,6 +1,7 @@
 import Lz4V.Model.FrameW
 import Lz4V.Model.FrameR
 import Lz4V.Proofs.FrameRRead
+import Lz4V.Proofs.FrameWBits
 /-!
 # Proofs.Life — lifecycle of the `Writer` and `Reader` objects (property C17)
 
@@ -74,10 +75,11 @@ structure FE (a b : FrameW.W) : Prop where
   bufSize : a.bufSize = b.bufSize
   cks : a.cks = b.cks
   deferred : a.deferred = b.deferred
+  saved : a.savedIdx = b.savedIdx
   sink : a.sink = b.sink
 
-/-- observational equivalence of two Writers: the configuration, the state, the state's error and the sink
-agree; the frame fields (`magicLegacy`, `pending`, `bufSize`, `cks`, `deferred`) agree whenever a frame is
+/-- observational equivalence of two Writers: the configuration, the state, the state's error, the sink and the
+saved block-size index (`savedIdx`, read by `Reset` in every state and by `init`) agree; the frame fields (`magicLegacy`, `pending`, `bufSize`, `cks`, `deferred`) agree whenever a frame is
 open (state `write`) — in every other state they are re-initialised by `init` before they are next read -/
 structure obsEq (a b : FrameW.W) : Prop where
   wf : WF a
@@ -85,6 +87,7 @@ structure obsEq (a b : FrameW.W) : Prop where
   st : a.st = b.st
   err : a.err = b.err
   sink : a.sink = b.sink
+  saved : a.savedIdx = b.savedIdx
   open_ : a.st = stWrite → FE a b
 
 end Lz4V.Props.C17
@@ -179,6 +182,26 @@ theorem writeLoop_succ (w : W) (buf : Array UInt8) (off n fuel : Nat) : writeLoo
       match e with
       | some e => (w, n, some e)
       | none => writeLoop { w with pending := #[] } buf off n fuel) := rfl
+
+/-- `Writer.Reset` (`Frame.Reset` restores the block size index a legacy frame had replaced) -/
+theorem reset_eq (w : W) (f : Option Nat) : reset w f =
+  { w with cfg := (if w.savedIdx ≠ 0 then { w.cfg with flags := blockSizeIndexSet w.cfg.flags w.savedIdx.toUInt16 } else w.cfg),
+           savedIdx := 0, st := stNew, err := none, deferred := none, sink := { failAt := f } } := rfl
+
+/-- with nothing saved (no legacy frame since the last `Reset`) `Reset` leaves the options alone -/
+theorem reset_cfg_of_saved_zero {w : W} (h : w.savedIdx = 0) (f : Option Nat) : (reset w f).cfg = w.cfg := by
+  rw [reset_eq]
+  show (if w.savedIdx ≠ 0 then _ else w.cfg) = w.cfg
+  rw [if_neg (by rw [h]; exact fun h => h rfl)]
+
+/-- the configuration after `Reset` depends on the configuration and the saved index only -/
+theorem reset_cfg_congr {a b : W} (hc : a.cfg = b.cfg) (hs : a.savedIdx = b.savedIdx) (f g : Option Nat) :
+    (reset a f).cfg = (reset b g).cfg := by
+  rw [reset_eq, reset_eq]
+  show (if a.savedIdx ≠ 0 then _ else a.cfg) = (if b.savedIdx ≠ 0 then _ else b.cfg)
+  rw [hc, hs]
+
+theorem reset_saved (w : W) (f : Option Nat) : (reset w f).savedIdx = 0 := rfl
 
 theorem apply_eq (w : W) (opts : List Opt) : apply w opts =
   (if w.st = stError then (w, w.err)
@@ -488,9 +511,9 @@ theorem apply_other {w : W} (h : w.st ≠ stError) (h' : w.st ≠ stNew) (opts :
     apply w opts = (check w (some .closedOrError), some .closedOrError) := by
   rw [apply_eq, if_neg h, if_pos h']
 theorem apply_new {w : W} (h : w.st = stNew) (opts : List Opt) : apply w opts =
-    (check { reset w w.sink.failAt with cfg := (apply.go w.cfg opts).1 } (apply.go w.cfg opts).2, (apply.go w.cfg opts).2) := by
+    (check { reset w w.sink.failAt with cfg := (apply.go (reset w w.sink.failAt).cfg opts).1 }
+        (apply.go (reset w w.sink.failAt).cfg opts).2, (apply.go (reset w w.sink.failAt).cfg opts).2) := by
   rw [apply_eq, if_neg (by rw [h]; decide), if_neg (by rw [h]; simp)]
-  rfl
 
 theorem check_some_ne_eof {w : W} (h : w.st ≠ stError) (e : Err) (he : e ≠ .eof) :
     check w (some e) = { w with st := stError, err := some e } := by
@@ -503,23 +526,23 @@ theorem check_some_ne_eof {w : W} (h : w.st ≠ stError) (e : Err) (he : e ≠ .
 /-! ## no function reads the `flags` field of `W`: simulation up to `FE` -/
 
 macro "fe_fields" : tactic =>
-  `(tactic| (refine ⟨?_, ?_, ?_, ?_, ?_, ?_, ?_, ?_, ?_⟩ <;> first | rfl | assumption))
+  `(tactic| (refine ⟨?_, ?_, ?_, ?_, ?_, ?_, ?_, ?_, ?_, ?_⟩ <;> first | rfl | assumption))
 macro "fe_pair" : tactic =>
   `(tactic| (refine ⟨?_, rfl⟩; fe_fields))
 
-theorem _root_.Lz4V.Props.C17.FE.refl (a : W) : FE a a := ⟨rfl, rfl, rfl, rfl, rfl, rfl, rfl, rfl, rfl⟩
+theorem _root_.Lz4V.Props.C17.FE.refl (a : W) : FE a a := ⟨rfl, rfl, rfl, rfl, rfl, rfl, rfl, rfl, rfl, rfl⟩
 
-theorem _root_.Lz4V.Props.C17.FE.mk' (c s e f1 f2 ml p bs k d sk) : FE ⟨c, s, e, f1, ml, p, bs, k, d, sk⟩ ⟨c, s, e, f2, ml, p, bs, k, d, sk⟩ :=
-  ⟨rfl, rfl, rfl, rfl, rfl, rfl, rfl, rfl, rfl⟩
+theorem _root_.Lz4V.Props.C17.FE.mk' (c s e f1 f2 ml p bs k d sv sk) : FE ⟨c, s, e, f1, ml, p, bs, k, d, sv, sk⟩ ⟨c, s, e, f2, ml, p, bs, k, d, sv, sk⟩ :=
+  ⟨rfl, rfl, rfl, rfl, rfl, rfl, rfl, rfl, rfl, rfl⟩
 
-theorem _root_.Lz4V.Props.C17.FE.elim {a b : W} (h : FE a b) : ∃ c s e f1 f2 ml p bs k d sk,
-    a = ⟨c, s, e, f1, ml, p, bs, k, d, sk⟩ ∧ b = ⟨c, s, e, f2, ml, p, bs, k, d, sk⟩ := by
-  obtain ⟨c, s, e, f1, ml, p, bs, k, d, sk⟩ := a
-  obtain ⟨c', s', e', f2, ml', p', bs', k', d', sk'⟩ := b
-  obtain ⟨h1, h2, h3, h4, h5, h6, h7, h8, h9⟩ := h
-  dsimp only at h1 h2 h3 h4 h5 h6 h7 h8 h9
-  subst h1 h2 h3 h4 h5 h6 h7 h8 h9
-  exact ⟨_, _, _, _, _, _, _, _, _, _, _, rfl, rfl⟩
+theorem _root_.Lz4V.Props.C17.FE.elim {a b : W} (h : FE a b) : ∃ c s e f1 f2 ml p bs k d sv sk,
+    a = ⟨c, s, e, f1, ml, p, bs, k, d, sv, sk⟩ ∧ b = ⟨c, s, e, f2, ml, p, bs, k, d, sv, sk⟩ := by
+  obtain ⟨c, s, e, f1, ml, p, bs, k, d, sv, sk⟩ := a
+  obtain ⟨c', s', e', f2, ml', p', bs', k', d', sv', sk'⟩ := b
+  obtain ⟨h1, h2, h3, h4, h5, h6, h7, h8, h9, h10⟩ := h
+  dsimp only at h1 h2 h3 h4 h5 h6 h7 h8 h9 h10
+  subst h1 h2 h3 h4 h5 h6 h7 h8 h9 h10
+  exact ⟨_, _, _, _, _, _, _, _, _, _, _, _, rfl, rfl⟩
 
 /-- `Sim F a b`: `F` gives `FE`-related states and equal results -/
 abbrev Sim {β : Type} (ra rb : W × β) : Prop := FE ra.1 rb.1 ∧ ra.2 = rb.2
@@ -528,7 +551,7 @@ theorem writeOne_FE {a b : W} (h : FE a b) (d : Array UInt8) : Sim (writeOne a d
   unfold writeOne
   rw [h.cfg, h.ml, h.cks, h.sink, h.deferred]
   rcases writeBlock b.cfg b.magicLegacy b.cks b.sink d with ⟨s, c, e⟩
-  obtain ⟨h1, h2, h3, h4, h5, h6, h7, h8, h9⟩ := h
+  obtain ⟨h1, h2, h3, h4, h5, h6, h7, h8, h9, h10⟩ := h
   dsimp only
   split
   · fe_pair
@@ -543,15 +566,15 @@ theorem writeLoop_FE (buf : Array UInt8) : ∀ (fuel : Nat) (a b : W) (off n : N
   | zero => intro a b off n h; exact ⟨h, rfl⟩
   | succ fuel ih =>
     intro a b off n h
-    obtain ⟨c, s, e, f1, f2, ml, p, bs, k, d, sk, rfl, rfl⟩ := h.elim
+    obtain ⟨c, s, e, f1, f2, ml, p, bs, k, d, sv, sk, rfl, rfl⟩ := h.elim
     rw [writeLoop_succ, writeLoop_succ]
     dsimp only
     split
     · exact ⟨h, rfl⟩
     · split
       · have := writeOne_FE h (buf.extract off (off + bs))
-        generalize writeOne (W.mk _ _ _ f1 _ _ _ _ _ _) _ = ra at this ⊢
-        generalize writeOne (W.mk _ _ _ f2 _ _ _ _ _ _) _ = rb at this ⊢
+        generalize writeOne (W.mk _ _ _ f1 _ _ _ _ _ _ _) _ = ra at this ⊢
+        generalize writeOne (W.mk _ _ _ f2 _ _ _ _ _ _ _) _ = rb at this ⊢
         obtain ⟨a1, e1⟩ := ra
         obtain ⟨b1, e2⟩ := rb
         obtain ⟨hfe, he⟩ := this
@@ -562,10 +585,10 @@ theorem writeLoop_FE (buf : Array UInt8) : ∀ (fuel : Nat) (a b : W) (off n : N
         | none => exact ih _ _ _ _ hfe
       · split
         · exact ⟨FE.mk' .., rfl⟩
-        · have := writeOne_FE (FE.mk' c s e f1 f2 ml (p ++ buf.extract off (off + min (bs - p.size) (buf.size - off))) bs k d sk)
+        · have := writeOne_FE (FE.mk' c s e f1 f2 ml (p ++ buf.extract off (off + min (bs - p.size) (buf.size - off))) bs k d sv sk)
             (p ++ buf.extract off (off + min (bs - p.size) (buf.size - off)))
-          generalize writeOne (W.mk _ _ _ f1 _ _ _ _ _ _) _ = ra at this ⊢
-          generalize writeOne (W.mk _ _ _ f2 _ _ _ _ _ _) _ = rb at this ⊢
+          generalize writeOne (W.mk _ _ _ f1 _ _ _ _ _ _ _) _ = ra at this ⊢
+          generalize writeOne (W.mk _ _ _ f2 _ _ _ _ _ _ _) _ = rb at this ⊢
           obtain ⟨a1, e1⟩ := ra
           obtain ⟨b1, e2⟩ := rb
           obtain ⟨hfe, he⟩ := this
@@ -575,7 +598,7 @@ theorem writeLoop_FE (buf : Array UInt8) : ∀ (fuel : Nat) (a b : W) (off n : N
           | some e => exact ⟨hfe, rfl⟩
           | none =>
             apply ih
-            obtain ⟨g1, g2, g3, g4, g5, g6, g7, g8, g9⟩ := hfe
+            obtain ⟨g1, g2, g3, g4, g5, g6, g7, g8, g9, g10⟩ := hfe
             fe_fields
 
 theorem rfLoop_FE (size : Nat) : ∀ (fuel : Nat) (a b : W) (src : Source) (n : Nat), FE a b →
@@ -607,7 +630,7 @@ theorem rfLoop_FE (size : Nat) : ∀ (fuel : Nat) (a b : W) (src : Source) (n : 
         · exact ih _ _ _ _ hfe
 
 theorem check_FE {a b : W} (h : FE a b) (e : Option Err) : FE (check a e) (check b e) := by
-  obtain ⟨c, s, e', f1, f2, ml, p, bs, k, d, sk, rfl, rfl⟩ := h.elim
+  obtain ⟨c, s, e', f1, f2, ml, p, bs, k, d, sv, sk, rfl, rfl⟩ := h.elim
   unfold check
   dsimp only
   split
@@ -619,32 +642,33 @@ theorem check_FE {a b : W} (h : FE a b) (e : Option Err) : FE (check a e) (check
       split <;> exact FE.mk' ..
 
 theorem next_FE {a b : W} (h : FE a b) (e : Option Err) : Sim (next a e) (next b e) := by
-  obtain ⟨c, s, e', f1, f2, ml, p, bs, k, d, sk, rfl, rfl⟩ := h.elim
+  obtain ⟨c, s, e', f1, f2, ml, p, bs, k, d, sv, sk, rfl, rfl⟩ := h.elim
   cases e with
   | none => exact ⟨FE.mk' .., rfl⟩
   | some e => exact ⟨FE.mk' .., rfl⟩
 
-/-- the part of the state that `init` reads -/
+/-- the part of the state that `init` (and `Reset`) reads -/
 structure OE (a b : W) : Prop where
   cfg : a.cfg = b.cfg
   st : a.st = b.st
   err : a.err = b.err
   sink : a.sink = b.sink
+  saved : a.savedIdx = b.savedIdx
 
-theorem _root_.Lz4V.Props.C17.FE.oe {a b : W} (h : FE a b) : OE a b := ⟨h.cfg, h.st, h.err, h.sink⟩
+theorem _root_.Lz4V.Props.C17.FE.oe {a b : W} (h : FE a b) : OE a b := ⟨h.cfg, h.st, h.err, h.sink, h.saved⟩
 
 /-- `init` re-initialises every frame field: two Writers that agree on `OE` agree on everything afterwards -/
 theorem init_OE {a b : W} (h : OE a b) : Sim (init a) (init b) := by
-  obtain ⟨c, s, e, f1, ml, p, bs, k, d, sk⟩ := a
-  obtain ⟨c', s', e', f2, ml', p', bs', k', d', sk'⟩ := b
-  obtain ⟨h1, h2, h3, h4⟩ := h
-  dsimp only at h1 h2 h3 h4
-  subst h1 h2 h3 h4
+  obtain ⟨c, s, e, f1, ml, p, bs, k, d, sv, sk⟩ := a
+  obtain ⟨c', s', e', f2, ml', p', bs', k', d', sv', sk'⟩ := b
+  obtain ⟨h1, h2, h3, h4, h5⟩ := h
+  dsimp only at h1 h2 h3 h4 h5
+  subst h1 h2 h3 h4 h5
   unfold init
   dsimp only
   generalize Sink.write sk _ = r
   obtain ⟨s1, e1⟩ := r
-  exact ⟨⟨rfl, rfl, rfl, rfl, rfl, rfl, rfl, rfl, rfl⟩, rfl⟩
+  exact ⟨⟨rfl, rfl, rfl, rfl, rfl, rfl, rfl, rfl, rfl, rfl⟩, rfl⟩
 
 theorem initNext_OE {a b : W} (h : OE a b) :
     Sim (next (init a).1 (init a).2) (next (init b).1 (init b).2) ∧ (init a).2 = (init b).2 := by
@@ -695,13 +719,13 @@ theorem flushGo_FE {a b : W} (h : FE a b) : Sim (flushGo a) (flushGo b) := by
     cases e1 with
     | some e => exact ⟨hfe, rfl⟩
     | none =>
-      obtain ⟨g1, g2, g3, g4, g5, g6, g7, g8, g9⟩ := hfe
+      obtain ⟨g1, g2, g3, g4, g5, g6, g7, g8, g9, g10⟩ := hfe
       dsimp only
       fe_pair
   · exact ⟨h, rfl⟩
 
 theorem closeW_FE {a b : W} (h : FE a b) : Sim (closeW a) (closeW b) := by
-  obtain ⟨c, s, e', f1, f2, ml, p, bs, k, d, sk, rfl, rfl⟩ := h.elim
+  obtain ⟨c, s, e', f1, f2, ml, p, bs, k, d, sv, sk, rfl, rfl⟩ := h.elim
   unfold closeW
   dsimp only
   split
@@ -732,7 +756,7 @@ theorem closeRest_FE {ra rb : W × Option Err} (h : Sim ra rb) : Sim (closeRest 
     obtain ⟨hfe, he⟩ := this
     dsimp only at he hfe ⊢
     subst he
-    obtain ⟨g1, g2, g3, g4, g5, g6, g7, g8, g9⟩ := hfe
+    obtain ⟨g1, g2, g3, g4, g5, g6, g7, g8, g9, g10⟩ := hfe
     have h2 : FE { a1 with pending := #[], bufSize := 0 } { b1 with pending := #[], bufSize := 0 } := by fe_fields
     exact ⟨(next_FE h2 e1).1, rfl⟩
 
@@ -744,14 +768,14 @@ def Rel (a b : W) : Prop := FE a b ∨ (OE a b ∧ a.st ≠ stWrite)
 
 theorem obsEq_of_rel {a b : W} (hw : WF a) (h : Rel a b) : obsEq a b := by
   rcases h with h | ⟨h, hne⟩
-  · exact ⟨hw, h.cfg, h.st, h.err, h.sink, fun _ => h⟩
-  · exact ⟨hw, h.cfg, h.st, h.err, h.sink, fun h' => absurd h' hne⟩
+  · exact ⟨hw, h.cfg, h.st, h.err, h.sink, h.saved, fun _ => h⟩
+  · exact ⟨hw, h.cfg, h.st, h.err, h.sink, h.saved, fun h' => absurd h' hne⟩
 
-theorem _root_.Lz4V.Props.C17.obsEq.oe {a b : W} (h : obsEq a b) : OE a b := ⟨h.cfg, h.st, h.err, h.sink⟩
+theorem _root_.Lz4V.Props.C17.obsEq.oe {a b : W} (h : obsEq a b) : OE a b := ⟨h.cfg, h.st, h.err, h.sink, h.saved⟩
 
 theorem oe_error {a b : W} (h : OE a b) (e : Err) :
     Rel { a with st := stError, err := some e } { b with st := stError, err := some e } :=
-  Or.inr ⟨⟨h.cfg, rfl, rfl, h.sink⟩, by show stError ≠ stWrite; decide⟩
+  Or.inr ⟨⟨h.cfg, rfl, rfl, h.sink, h.saved⟩, by show stError ≠ stWrite; decide⟩
 
 theorem oe_self {a b : W} (h : OE a b) (hne : a.st ≠ stWrite) : Rel a b := Or.inr ⟨h, hne⟩
 
@@ -906,16 +930,16 @@ theorem check_OE {a b : W} (h : OE a b) (e : Option Err) : OE (check a e) (check
     | some e =>
       dsimp only
       split
-      · exact ⟨h.cfg, h.st, rfl, h.sink⟩
-      · exact ⟨h.cfg, rfl, rfl, h.sink⟩
+      · exact ⟨h.cfg, h.st, rfl, h.sink, h.saved⟩
+      · exact ⟨h.cfg, rfl, rfl, h.sink, h.saved⟩
 
 theorem apply_obs {a b : W} (h : obsEq a b) (opts : List Opt) :
     Rel (apply a opts).1 (apply b opts).1 ∧ (apply a opts).2 = (apply b opts).2 := by
   rcases h.wf.four with hs | hs | hs | hs
-  · rw [apply_new hs, apply_new (h.st ▸ hs), h.cfg, h.sink]
-    generalize apply.go b.cfg opts = r
+  · rw [apply_new hs, apply_new (h.st ▸ hs), h.sink, reset_cfg_congr h.cfg h.saved b.sink.failAt b.sink.failAt]
+    generalize apply.go (reset b b.sink.failAt).cfg opts = r
     obtain ⟨c, e⟩ := r
-    have hoe : OE { reset a b.sink.failAt with cfg := c } { reset b b.sink.failAt with cfg := c } := ⟨rfl, rfl, rfl, rfl⟩
+    have hoe : OE { reset a b.sink.failAt with cfg := c } { reset b b.sink.failAt with cfg := c } := ⟨rfl, rfl, rfl, rfl, rfl⟩
     have hne : ({ reset a b.sink.failAt with cfg := c } : W).st ≠ stWrite := by show stNew ≠ stWrite; decide
     exact ⟨Or.inr ⟨check_OE hoe e, check_st_ne_write hne e⟩, rfl⟩
   · have h1 : a.st ≠ stError := by rw [hs]; decide
@@ -931,7 +955,7 @@ theorem apply_obs {a b : W} (h : obsEq a b) (opts : List Opt) :
     exact ⟨oe_self h.oe (by rw [hs]; decide), rfl⟩
 
 theorem reset_obs {a b : W} (h : obsEq a b) (f : Option Nat) : Rel (reset a f) (reset b f) :=
-  Or.inr ⟨⟨h.cfg, rfl, rfl, rfl⟩, by show stNew ≠ stWrite; decide⟩
+  Or.inr ⟨⟨reset_cfg_congr h.cfg h.saved f f, rfl, rfl, rfl, rfl⟩, by show stNew ≠ stWrite; decide⟩
 
 theorem wstepFull_fst (w : W) (op : WOp) : (wstepFull w op).1 = (wstep w op).1 := by
   cases op <;> rfl
@@ -2052,7 +2076,8 @@ end Lz4V.Proofs.LifeR
 namespace Lz4V.Proofs.Life
 open Lz4V Lz4V.Go Lz4V.Gen Lz4V.Model Lz4V.Model.FrameW Lz4V.Props.C17
 
-/-! ## the configuration is only changed by `Apply` and `init`, i.e. only in the new state -/
+/-! ## the configuration is only changed by `Apply` and `init`, i.e. only in the new state, and by `Reset`
+(which restores the block size index a legacy frame had replaced) -/
 
 theorem writeOne_cfg (w : W) (d : Array UInt8) : (writeOne w d).1.cfg = w.cfg := by
   unfold writeOne
@@ -2123,11 +2148,13 @@ theorem closeRest_cfg (r : W × Option Err) : (closeRest r).1.cfg = r.1.cfg := b
     dsimp only at this ⊢
     cases e <;> exact this
 
-/-- outside the new state no call changes the options -/
-theorem cfg_fixed {w : W} (hw : WF w) (h : w.st ≠ stNew) (op : WOp) : (wstep w op).1.cfg = w.cfg := by
+/-- outside the new state no call other than `Reset` changes the options (`Reset` restores the block size
+index that a legacy frame had replaced: `reset_eq`) -/
+theorem cfg_fixed {w : W} (hw : WF w) (h : w.st ≠ stNew) (op : WOp) (hop : ∀ f, op ≠ .reset f) :
+    (wstep w op).1.cfg = w.cfg := by
   cases op with
   | apply opts => exact (apply_not_new hw h opts).2
-  | reset f => rfl
+  | reset f => exact absurd rfl (hop f)
   | write buf =>
     show (write w buf).1.cfg = w.cfg
     rcases hw.four with hs | hs | hs | hs
@@ -2162,5 +2189,607 @@ theorem cfg_fixed {w : W} (hw : WF w) (h : w.st ≠ stNew) (op : WOp) : (wstep w
     · rw [readFrom_write hs]
     · rw [readFrom_closed hs]
     · rw [readFrom_error hs]
+
+
+/-! ## the saved block size index (`Frame.savedBlockSizeIndex`) is only changed by `init` and `Reset` -/
+
+theorem writeOne_saved (w : W) (d : Array UInt8) : (writeOne w d).1.savedIdx = w.savedIdx := by
+  unfold writeOne
+  rcases writeBlock w.cfg w.magicLegacy w.cks w.sink d with ⟨s, c, e⟩
+  dsimp only
+  split
+  · rfl
+  · split <;> rfl
+
+theorem writeLoop_saved (buf : Array UInt8) : ∀ (fuel : Nat) (w : W) (off n : Nat),
+    (writeLoop w buf off n fuel).1.savedIdx = w.savedIdx := by
+  intro fuel
+  induction fuel with
+  | zero => intro w off n; rfl
+  | succ fuel ih =>
+    intro w off n
+    rw [writeLoop_succ]
+    dsimp only
+    split
+    · rfl
+    · split
+      · have := writeOne_saved w (buf.extract off (off + w.bufSize))
+        generalize writeOne w _ = r at this ⊢
+        obtain ⟨w1, e1⟩ := r
+        cases e1 with
+        | some e => exact this
+        | none => dsimp only at this ⊢; rw [ih]; exact this
+      · split
+        · rfl
+        · have := writeOne_saved { w with pending := w.pending ++ buf.extract off (off + min (w.bufSize - w.pending.size) (buf.size - off)) }
+            (w.pending ++ buf.extract off (off + min (w.bufSize - w.pending.size) (buf.size - off)))
+          generalize writeOne _ _ = r at this ⊢
+          obtain ⟨w1, e1⟩ := r
+          cases e1 with
+          | some e => exact this
+          | none => dsimp only at this ⊢; rw [ih]; exact this
+
+theorem check_saved (w : W) (e : Option Err) : (check w e).savedIdx = w.savedIdx := by
+  unfold check
+  split
+  · rfl
+  · cases e with
+    | none => rfl
+    | some e => dsimp only; split <;> rfl
+
+theorem flushGo_saved (w : W) : (flushGo w).1.savedIdx = w.savedIdx := by
+  unfold flushGo
+  split
+  · have := writeOne_saved w w.pending
+    generalize writeOne w w.pending = r at this ⊢
+    obtain ⟨w1, e1⟩ := r
+    cases e1 <;> exact this
+  · rfl
+
+theorem closeW_saved (w : W) : (closeW w).1.savedIdx = w.savedIdx := by
+  unfold closeW
+  split
+  · rfl
+  · split <;> rfl
+
+theorem closeRest_saved (r : W × Option Err) : (closeRest r).1.savedIdx = r.1.savedIdx := by
+  unfold closeRest
+  split
+  · rfl
+  · have := closeW_saved r.1
+    generalize closeW r.1 = q at this ⊢
+    obtain ⟨w1, e⟩ := q
+    dsimp only at this ⊢
+    cases e <;> exact this
+
+/-- same options and same saved index -/
+def CS (a b : W) : Prop := a.cfg = b.cfg ∧ a.savedIdx = b.savedIdx
+
+theorem CS.rfl' (a : W) : CS a a := ⟨rfl, rfl⟩
+theorem CS.trans' {a b c : W} (h1 : CS a b) (h2 : CS b c) : CS a c := ⟨h1.1.trans h2.1, h1.2.trans h2.2⟩
+
+theorem next_cs (w : W) (e : Option Err) : CS (next w e).1 w := by cases e <;> exact ⟨rfl, rfl⟩
+theorem check_cs (w : W) (e : Option Err) : CS (check w e) w := ⟨check_cfg w e, check_saved w e⟩
+theorem writeOne_cs (w : W) (d : Array UInt8) : CS (writeOne w d).1 w := ⟨writeOne_cfg w d, writeOne_saved w d⟩
+theorem flushGo_cs (w : W) : CS (flushGo w).1 w := ⟨flushGo_cfg w, flushGo_saved w⟩
+theorem closeRest_cs (r : W × Option Err) : CS (closeRest r).1 r.1 := ⟨closeRest_cfg r, closeRest_saved r⟩
+
+theorem writeGo_cs (buf : Array UInt8) (w : W) : CS (writeGo buf w).1 w := by
+  unfold writeGo
+  have h1 := writeLoop_cfg buf (buf.size + 2) w 0 0
+  have h2 := writeLoop_saved buf (buf.size + 2) w 0 0
+  generalize writeLoop w buf 0 0 (buf.size + 2) = r at h1 h2 ⊢
+  obtain ⟨w1, n, e⟩ := r
+  exact (check_cs w1 e).trans' ⟨h1, h2⟩
+
+theorem rfLoop_cs (size : Nat) : ∀ (fuel : Nat) (w : W) (src : Source) (n : Nat),
+    CS (readFrom.loop size w src n fuel).1 w := by
+  intro fuel
+  induction fuel with
+  | zero => intro w src n; exact ⟨rfl, rfl⟩
+  | succ fuel ih =>
+    intro w src n
+    rw [rfLoop_succ]
+    rcases readFull src size with ⟨s1, got, e⟩
+    dsimp only
+    split
+    · exact ⟨rfl, rfl⟩
+    · have := writeOne_cs w got
+      generalize writeOne w got = r at this ⊢
+      obtain ⟨w1, e1⟩ := r
+      cases e1 with
+      | some e => exact this
+      | none =>
+        dsimp only at this ⊢
+        split
+        · exact this
+        · exact (ih _ _ _).trans' this
+
+theorem rfGo_cs (src : Source) (w : W) : CS (rfGo src w).1 w := by
+  unfold rfGo
+  dsimp only
+  have := rfLoop_cs (poolSize (blockSizeIndex w.cfg.flags)) (src.data.size / (max (poolSize (blockSizeIndex w.cfg.flags)) 1) + 3) w src 0
+  generalize readFrom.loop _ w src 0 _ = r at this ⊢
+  obtain ⟨w1, s, n, e⟩ := r
+  exact (check_cs w1 e).trans' this
+
+/-- `Write`, `Flush`, `Close` and `ReadFrom` change the options and the saved index through `init` only -/
+theorem write_cs (w : W) (buf : Array UInt8) : CS (write w buf).1 w ∨ CS (write w buf).1 (init w).1 := by
+  rw [write_eq]
+  split
+  · exact Or.inl (writeGo_cs buf w)
+  · split
+    · exact Or.inl (check_cs w _)
+    · split
+      · exact Or.inl ⟨rfl, rfl⟩
+      · split
+        · right
+          generalize init w = r
+          obtain ⟨w1, e⟩ := r
+          dsimp only
+          have := next_cs w1 e
+          generalize next w1 e = r2 at this ⊢
+          obtain ⟨w2, bad⟩ := r2
+          dsimp only at this ⊢
+          split
+          · exact (check_cs w2 e).trans' this
+          · exact (writeGo_cs buf w2).trans' this
+        · exact Or.inl ⟨rfl, rfl⟩
+
+theorem flush_cs (w : W) : CS (flush w).1 w ∨ CS (flush w).1 (init w).1 := by
+  rw [flush_eq]
+  split
+  · exact Or.inl (flushGo_cs w)
+  · split
+    · exact Or.inl ⟨rfl, rfl⟩
+    · split
+      · right
+        generalize init w = r
+        obtain ⟨w1, e⟩ := r
+        dsimp only
+        have := next_cs w1 e
+        generalize next w1 e = r2 at this ⊢
+        obtain ⟨w2, bad⟩ := r2
+        dsimp only at this ⊢
+        split
+        · exact this
+        · exact (flushGo_cs w2).trans' this
+      · exact Or.inl ⟨rfl, rfl⟩
+
+theorem close_cs (w : W) : CS (close w).1 w ∨ CS (close w).1 (init w).1 := by
+  rw [close_eq]
+  split
+  · exact Or.inl ⟨rfl, rfl⟩
+  · rcases flush_cs w with h | h
+    · exact Or.inl ((closeRest_cs _).trans' h)
+    · exact Or.inr ((closeRest_cs _).trans' h)
+
+theorem readFrom_cs (w : W) (src : Source) : CS (readFrom w src).1 w ∨ CS (readFrom w src).1 (init w).1 := by
+  rw [readFrom_eq]
+  split
+  · exact Or.inl ⟨rfl, rfl⟩
+  · split
+    · exact Or.inl ⟨rfl, rfl⟩
+    · split
+      · right
+        generalize init w = r
+        obtain ⟨w1, e⟩ := r
+        dsimp only
+        have := next_cs w1 e
+        generalize next w1 e = r2 at this ⊢
+        obtain ⟨w2, bad⟩ := r2
+        dsimp only at this ⊢
+        split
+        · exact this
+        · exact (rfGo_cs src w2).trans' this
+      · exact Or.inl ⟨rfl, rfl⟩
+
+
+end Lz4V.Proofs.Life
+
+/-! # the block-size option survives legacy frames (the `Frame.InitW` / `Frame.Reset` fix) -/
+
+namespace Lz4V.Props.C17
+open Lz4V Lz4V.Go Lz4V.Gen Lz4V.Model
+
+/-- the block-size option `k` of a Writer is intact: either it sits in the descriptor flags and nothing is
+saved, or a legacy frame has put the 8 MiB index (3) there and `k` is saved for the next `Reset` -/
+def BsInv (k : Nat) (w : FrameW.W) : Prop :=
+  (w.savedIdx = 0 ∧ FrameW.blockSizeIndex w.cfg.flags = k) ∨
+  (w.savedIdx = k ∧ FrameW.blockSizeIndex w.cfg.flags = 3)
+
+/-- a call other than `Apply` -/
+def WOp.notApply : WOp → Prop
+  | .apply _ => False
+  | _ => True
+
+end Lz4V.Props.C17
+
+namespace Lz4V.Proofs.Life
+open Lz4V Lz4V.Go Lz4V.Gen Lz4V.Model Lz4V.Model.FrameW Lz4V.Props.C17 Lz4V.Proofs.FrameWBits
+
+theorem indexOf_8Mb : indexOf Block8Mb = 3 := by decide
+
+theorem init_flags (w : W) : (init w).1.cfg.flags =
+    (if w.cfg.legacy then blockSizeIndexSet w.cfg.flags (indexOf Block8Mb).toUInt16
+     else blockIndependenceSet (versionSet w.cfg.flags 1) true) := rfl
+
+theorem init_saved (w : W) : (init w).1.savedIdx =
+    (if w.cfg.legacy ∧ blockSizeIndex w.cfg.flags ≠ indexOf Block8Mb then blockSizeIndex w.cfg.flags
+     else w.savedIdx) := rfl
+
+theorem init_cfg (w : W) : (init w).1.cfg = { w.cfg with flags := (init w).1.cfg.flags } := rfl
+
+theorem valid_idx {k : Nat} (hk : k ∈ [4, 5, 6, 7]) : k ≠ 0 ∧ k ≠ 3 ∧ k < 8 := by
+  simp only [List.mem_cons, List.not_mem_nil, or_false] at hk
+  omega
+
+theorem bsInv_cs {k : Nat} {a b : W} (h : CS a b) (hb : BsInv k b) : BsInv k a := by
+  unfold BsInv at hb ⊢
+  rw [h.1, h.2]; exact hb
+
+/-- `Writer.init` keeps the option intact: a legacy frame hides it, any other frame leaves it where it is -/
+theorem bsInv_init {k : Nat} (hk : k ∈ [4, 5, 6, 7]) {w : W} (h : BsInv k w) : BsInv k (init w).1 := by
+  have hk3 : k ≠ 3 := (valid_idx hk).2.1
+  unfold BsInv at h ⊢
+  rw [init_flags, init_saved, indexOf_8Mb]
+  cases hl : w.cfg.legacy with
+  | false =>
+    simp only [Bool.false_eq_true, false_and, if_false]
+    rw [bsi_init]; exact h
+  | true =>
+    simp only [true_and, if_true]
+    rw [bsi_set_nat _ 3 (by decide)]
+    rcases h with ⟨h1, h2⟩ | ⟨h1, h2⟩
+    · right; rw [h2, if_pos hk3]; exact ⟨rfl, rfl⟩
+    · right; rw [h2, if_neg (fun h => h rfl)]; exact ⟨h1, rfl⟩
+
+/-- `Reset` puts the option back into the descriptor flags -/
+theorem bsInv_reset {k : Nat} (hk : k ∈ [4, 5, 6, 7]) {w : W} (h : BsInv k w) (f : Option Nat) :
+    (reset w f).savedIdx = 0 ∧ blockSizeIndex (reset w f).cfg.flags = k := by
+  refine ⟨rfl, ?_⟩
+  rcases h with ⟨h1, h2⟩ | ⟨h1, h2⟩
+  · rw [reset_cfg_of_saved_zero h1]; exact h2
+  · rw [reset_eq]
+    show blockSizeIndex (if w.savedIdx ≠ 0 then _ else w.cfg : Cfg).flags = k
+    rw [if_pos (by rw [h1]; exact (valid_idx hk).1), h1]
+    exact bsi_set_nat _ k (valid_idx hk).2.2
+
+/-- no call other than `Apply` changes the block-size option -/
+theorem bsInv_step {k : Nat} (hk : k ∈ [4, 5, 6, 7]) {w : W} (h : BsInv k w) (op : WOp) (hop : op.notApply) :
+    BsInv k (wstep w op).1 := by
+  have key : ∀ w' : W, CS w' w ∨ CS w' (init w).1 → BsInv k w' := by
+    intro w' hw'
+    rcases hw' with h' | h'
+    · exact bsInv_cs h' h
+    · exact bsInv_cs h' (bsInv_init hk h)
+  cases op with
+  | apply opts => exact absurd hop (fun h => h)
+  | write buf => exact key _ (write_cs w buf)
+  | flush => exact key _ (flush_cs w)
+  | close => exact key _ (close_cs w)
+  | reset f => exact Or.inl (bsInv_reset hk h f)
+  | readFrom src => exact key _ (readFrom_cs w src)
+
+theorem bsInv_run {k : Nat} (hk : k ∈ [4, 5, 6, 7]) (ops : List WOp) : ∀ {w : W}, BsInv k w →
+    (∀ op ∈ ops, op.notApply) → BsInv k (wrunFrom w ops) := by
+  induction ops with
+  | nil => intro w h _; exact h
+  | cons op ops ih =>
+    intro w h hops
+    exact ih (bsInv_step hk h op (hops op (List.mem_cons_self ..)))
+      (fun o ho => hops o (List.mem_cons_of_mem _ ho))
+
+/-- after a legacy frame (`init` with the legacy option) `Reset` gives back exactly the options that were
+configured -/
+theorem legacy_reset_cfg {w : W} (hl : w.cfg.legacy = true) (h0 : w.savedIdx = 0)
+    (hk : blockSizeIndex w.cfg.flags ≠ 0) (f : Option Nat) : (reset (init w).1 f).cfg = w.cfg := by
+  have hs : (init w).1.savedIdx = if blockSizeIndex w.cfg.flags ≠ 3 then blockSizeIndex w.cfg.flags else 0 := by
+    rw [init_saved, indexOf_8Mb, hl, h0]; simp only [true_and]
+  have hf : (init w).1.cfg.flags = blockSizeIndexSet w.cfg.flags (3 : Nat).toUInt16 := by
+    rw [init_flags, indexOf_8Mb, hl]; simp only [if_true]
+  have hc : (init w).1.cfg = { w.cfg with flags := (init w).1.cfg.flags } := rfl
+  have eta : ∀ x : Flags, x = w.cfg.flags → ({ w.cfg with flags := x } : Cfg) = w.cfg := by
+    intro x hx; rw [hx]
+  rw [reset_eq]
+  show (if (init w).1.savedIdx ≠ 0 then ({ (init w).1.cfg with
+      flags := blockSizeIndexSet (init w).1.cfg.flags (init w).1.savedIdx.toUInt16 } : Cfg) else (init w).1.cfg) = w.cfg
+  by_cases h3 : blockSizeIndex w.cfg.flags = 3
+  · have hs0 : (init w).1.savedIdx = 0 := by rw [hs, if_neg (fun h => h h3)]
+    rw [if_neg (fun h => h hs0), hc]
+    apply eta
+    rw [hf, ← h3]; exact bsiSet_self _
+  · have hs1 : (init w).1.savedIdx = blockSizeIndex w.cfg.flags := by rw [hs, if_pos h3]
+    rw [if_pos (by rw [hs1]; exact hk), hs1]
+    show ({ w.cfg with flags := blockSizeIndexSet (init w).1.cfg.flags (blockSizeIndex w.cfg.flags).toUInt16 } : Cfg) = w.cfg
+    apply eta
+    rw [hf, bsiSet_bsiSet, bsiSet_self]
+
+end Lz4V.Proofs.Life
+
+namespace Lz4V.Proofs.Life
+open Lz4V Lz4V.Go Lz4V.Gen Lz4V.Model Lz4V.Model.FrameW Lz4V.Props.C17 Lz4V.Proofs.FrameWBits
+
+/-! ## `Apply` keeps the block-size index valid; every reachable Writer has its option intact -/
+
+theorem applyGo_nil (c : Cfg) : apply.go c [] = (c, none) := rfl
+theorem applyGo_cons (c : Cfg) (o : Opt) (os : List Opt) : apply.go c (o :: os) =
+    (match applyOne c o with
+     | .ok c' => apply.go c' os
+     | .error e => (c, some e)) := rfl
+
+theorem applyOne_blockSize (c : Cfg) (n : Nat) : applyOne c (.blockSize n) =
+    (if indexOf n = 4 ∨ indexOf n = 5 ∨ indexOf n = 6 ∨ indexOf n = 7 then
+      .ok { c with flags := blockSizeIndexSet c.flags (indexOf n).toUInt16 } else .error .badBlockSize) := rfl
+theorem applyOne_level (c : Cfg) (n : Nat) : applyOne c (.level n) =
+    (if validLevel n then .ok { c with level := n } else .error .badLevel) := rfl
+
+theorem applyOne_idx {c c' : Cfg} (o : Opt) (h : blockSizeIndex c.flags ∈ [4, 5, 6, 7]) (ho : applyOne c o = .ok c') :
+    blockSizeIndex c'.flags ∈ [4, 5, 6, 7] := by
+  cases o with
+  | blockSize n =>
+    rw [applyOne_blockSize] at ho
+    split at ho
+    · rename_i hv
+      injection ho with ho
+      subst ho
+      show blockSizeIndex (blockSizeIndexSet c.flags (indexOf n).toUInt16) ∈ [4, 5, 6, 7]
+      rw [bsi_set_nat _ _ (by omega)]
+      simp only [List.mem_cons, List.not_mem_nil, or_false]
+      exact hv
+    · exact nomatch ho
+  | blockChecksum b =>
+    injection ho with ho; subst ho
+    show blockSizeIndex (blockChecksumSet c.flags b) ∈ _
+    rw [bsi_blockChecksumSet]; exact h
+  | checksum b =>
+    injection ho with ho; subst ho
+    show blockSizeIndex (contentChecksumSet c.flags b) ∈ _
+    rw [bsi_contentChecksumSet]; exact h
+  | size n =>
+    injection ho with ho; subst ho
+    show blockSizeIndex (sizeSet c.flags (n > 0)) ∈ _
+    rw [bsi_sizeSet]; exact h
+  | concurrency n => injection ho with ho; subst ho; exact h
+  | level n =>
+    rw [applyOne_level] at ho
+    split at ho
+    · injection ho with ho; subst ho; exact h
+    · exact nomatch ho
+  | legacy b => injection ho with ho; subst ho; exact h
+
+theorem applyGo_idx : ∀ (opts : List Opt) (c : Cfg), blockSizeIndex c.flags ∈ [4, 5, 6, 7] →
+    blockSizeIndex (apply.go c opts).1.flags ∈ [4, 5, 6, 7] := by
+  intro opts
+  induction opts with
+  | nil => intro c h; exact h
+  | cons o os ih =>
+    intro c h
+    rw [applyGo_cons]
+    cases ho : applyOne c o with
+    | ok c' => exact ih c' (applyOne_idx o h ho)
+    | error e => exact h
+
+theorem new_idx (f : Option Nat) : (new f).savedIdx = 0 ∧ blockSizeIndex (new f).cfg.flags = 7 := ⟨rfl, by show blockSizeIndex (contentChecksumSet (blockSizeIndexSet 0 (indexOf Block4Mb).toUInt16) true) = 7; decide⟩
+
+/-- a freshly configured Writer (`NewWriter` + `Apply`, successful or not): nothing saved, valid index -/
+theorem apply_new_fresh (fa : Option Nat) (opts : List Opt) :
+    (apply (new fa) opts).1.savedIdx = 0 ∧ blockSizeIndex (apply (new fa) opts).1.cfg.flags ∈ [4, 5, 6, 7] := by
+  rw [apply_new (w := new fa) rfl]
+  dsimp only
+  rw [check_saved, check_cfg]
+  refine ⟨rfl, ?_⟩
+  show blockSizeIndex (apply.go (reset (new fa) (new fa).sink.failAt).cfg opts).1.flags ∈ [4, 5, 6, 7]
+  apply applyGo_idx
+  rw [reset_cfg_of_saved_zero rfl, (new_idx fa).2]
+  decide
+
+/-- the options after `Reset`, field by field -/
+theorem reset_fields (w : W) (f : Option Nat) :
+    (reset w f).cfg.level = w.cfg.level ∧ (reset w f).cfg.num = w.cfg.num ∧ (reset w f).cfg.legacy = w.cfg.legacy ∧
+    (reset w f).cfg.contentSize = w.cfg.contentSize ∧
+    (reset w f).cfg.flags = (if w.savedIdx ≠ 0 then blockSizeIndexSet w.cfg.flags w.savedIdx.toUInt16 else w.cfg.flags) := by
+  rw [reset_eq]
+  by_cases h : w.savedIdx ≠ 0
+  · show ((if w.savedIdx ≠ 0 then _ else w.cfg : Cfg).level = _) ∧ ((if w.savedIdx ≠ 0 then _ else w.cfg : Cfg).num = _) ∧
+      ((if w.savedIdx ≠ 0 then _ else w.cfg : Cfg).legacy = _) ∧ ((if w.savedIdx ≠ 0 then _ else w.cfg : Cfg).contentSize = _) ∧
+      ((if w.savedIdx ≠ 0 then _ else w.cfg : Cfg).flags = _)
+    rw [if_pos h, if_pos h]; exact ⟨rfl, rfl, rfl, rfl, rfl⟩
+  · show ((if w.savedIdx ≠ 0 then _ else w.cfg : Cfg).level = _) ∧ ((if w.savedIdx ≠ 0 then _ else w.cfg : Cfg).num = _) ∧
+      ((if w.savedIdx ≠ 0 then _ else w.cfg : Cfg).legacy = _) ∧ ((if w.savedIdx ≠ 0 then _ else w.cfg : Cfg).contentSize = _) ∧
+      ((if w.savedIdx ≠ 0 then _ else w.cfg : Cfg).flags = _)
+    rw [if_neg h, if_neg h]; exact ⟨rfl, rfl, rfl, rfl, rfl⟩
+
+/-- `Apply` leaves a Writer whose block-size option is intact (possibly another one) -/
+theorem apply_bsInv {w : W} (h : ∃ k ∈ [4, 5, 6, 7], BsInv k w) (opts : List Opt) :
+    ∃ k ∈ [4, 5, 6, 7], BsInv k (apply w opts).1 := by
+  obtain ⟨k, hk, hb⟩ := h
+  rw [apply_eq]
+  split
+  · exact ⟨k, hk, hb⟩
+  · split
+    · exact ⟨k, hk, bsInv_cs (check_cs w _) hb⟩
+    · dsimp only
+      have hr := bsInv_reset hk hb w.sink.failAt
+      have hi := applyGo_idx opts (reset w w.sink.failAt).cfg (by rw [hr.2]; exact hk)
+      generalize apply.go (reset w w.sink.failAt).cfg opts = r at hi ⊢
+      obtain ⟨c, e⟩ := r
+      exact ⟨_, hi, bsInv_cs (check_cs _ e) (Or.inl ⟨rfl, rfl⟩)⟩
+
+theorem wstep_bsInv {w : W} (h : ∃ k ∈ [4, 5, 6, 7], BsInv k w) (op : WOp) :
+    ∃ k ∈ [4, 5, 6, 7], BsInv k (wstep w op).1 := by
+  cases op with
+  | apply opts => exact apply_bsInv h opts
+  | write buf => obtain ⟨k, hk, hb⟩ := h; exact ⟨k, hk, bsInv_step hk hb (.write buf) trivial⟩
+  | flush => obtain ⟨k, hk, hb⟩ := h; exact ⟨k, hk, bsInv_step hk hb .flush trivial⟩
+  | close => obtain ⟨k, hk, hb⟩ := h; exact ⟨k, hk, bsInv_step hk hb .close trivial⟩
+  | reset f => obtain ⟨k, hk, hb⟩ := h; exact ⟨k, hk, bsInv_step hk hb (.reset f) trivial⟩
+  | readFrom src => obtain ⟨k, hk, hb⟩ := h; exact ⟨k, hk, bsInv_step hk hb (.readFrom src) trivial⟩
+
+theorem wrunFrom_bsInv (ops : List WOp) : ∀ {w : W}, (∃ k ∈ [4, 5, 6, 7], BsInv k w) →
+    ∃ k ∈ [4, 5, 6, 7], BsInv k (wrunFrom w ops) := by
+  induction ops with
+  | nil => intro w h; exact h
+  | cons op ops ih => intro w h; exact ih (wstep_bsInv h op)
+
+end Lz4V.Proofs.Life
+
+namespace Lz4V.Proofs.Life
+open Lz4V Lz4V.Go Lz4V.Gen Lz4V.Model Lz4V.Model.FrameW Lz4V.Props.C17 Lz4V.Proofs.FrameWBits
+
+/-! ## only `Reset` and `Apply` lead to (or stay in) the new state; there nothing is saved -/
+
+theorem check_st' (w : W) (e : Option Err) : (check w e).st = w.st ∨ (check w e).st = stError := by
+  unfold check
+  split
+  · exact Or.inl rfl
+  · cases e with
+    | none => exact Or.inl rfl
+    | some e => dsimp only; split
+                · exact Or.inl rfl
+                · exact Or.inr rfl
+
+theorem check_ne_new {w : W} (h : w.st ≠ stNew) (e : Option Err) : (check w e).st ≠ stNew := by
+  rcases check_st' w e with h' | h' <;> rw [h']
+  · exact h
+  · decide
+
+theorem writeGo_ne_new {w : W} (h : w.st ≠ stNew) (buf : Array UInt8) : (writeGo buf w).1.st ≠ stNew := by
+  unfold writeGo
+  have := writeLoop_st buf (buf.size + 2) w 0 0
+  generalize writeLoop w buf 0 0 (buf.size + 2) = r at this ⊢
+  obtain ⟨w1, n, e⟩ := r
+  exact check_ne_new (by rw [this.1]; exact h) e
+
+theorem rfGo_ne_new {w : W} (h : w.st ≠ stNew) (src : Source) : (rfGo src w).1.st ≠ stNew := by
+  unfold rfGo
+  dsimp only
+  have := rfLoop_st (poolSize (blockSizeIndex w.cfg.flags)) (src.data.size / (max (poolSize (blockSizeIndex w.cfg.flags)) 1) + 3) w src 0
+  generalize readFrom.loop _ w src 0 _ = r at this ⊢
+  obtain ⟨w1, s, n, e⟩ := r
+  exact check_ne_new (by rw [this.1]; exact h) e
+
+/-- after `init` + `next` from the new state the Writer is in the write or in the error state -/
+theorem initNext_ne_new {w : W} (hs : w.st = stNew) : (next (init w).1 (init w).2).1.st ≠ stNew := by
+  have hi : (init w).1.st = stNew := hs
+  generalize init w = r at hi ⊢
+  obtain ⟨w1, e1⟩ := r
+  dsimp only at hi ⊢
+  cases e1 with
+  | some e => rw [next_some]; show stError ≠ stNew; decide
+  | none => rw [next_none]; show writerStates w1.st ≠ stNew; rw [hi]; decide
+
+theorem write_ne_new {w : W} (hw : WF w) (buf : Array UInt8) : (write w buf).1.st ≠ stNew := by
+  rcases hw.four with hs | hs | hs | hs
+  · rw [write_new hs]
+    have := initNext_ne_new hs
+    generalize init w = r at this ⊢
+    obtain ⟨w1, e⟩ := r
+    dsimp only at this ⊢
+    generalize next w1 e = r2 at this ⊢
+    obtain ⟨w2, bad⟩ := r2
+    dsimp only at this ⊢
+    split
+    · exact check_ne_new this e
+    · exact writeGo_ne_new this buf
+  · rw [write_write hs]; exact writeGo_ne_new (by rw [hs]; decide) buf
+  · rw [write_closed hs]; exact check_ne_new (by rw [hs]; decide) _
+  · rw [write_error hs]; show w.st ≠ stNew; rw [hs]; decide
+
+theorem flush_ne_new {w : W} (hw : WF w) : (flush w).1.st ≠ stNew := by
+  rcases hw.four with hs | hs | hs | hs
+  · rw [flush_new hs]
+    have := initNext_ne_new hs
+    generalize init w = r at this ⊢
+    obtain ⟨w1, e⟩ := r
+    dsimp only at this ⊢
+    generalize next w1 e = r2 at this ⊢
+    obtain ⟨w2, bad⟩ := r2
+    dsimp only at this ⊢
+    split
+    · exact this
+    · rw [(flushGo_st w2).1]; exact this
+  · rw [flush_write hs, (flushGo_st w).1, hs]; decide
+  · rw [flush_closed hs]; show w.st ≠ stNew; rw [hs]; decide
+  · rw [flush_error hs]; show w.st ≠ stNew; rw [hs]; decide
+
+theorem close_ne_new {w : W} (hw : WF w) : (close w).1.st ≠ stNew := by
+  by_cases hc : w.st = stClosed
+  · rw [close_closed hc]; show w.st ≠ stNew; rw [hc]; decide
+  · rw [close_other hc]
+    have hf := flush_ne_new hw
+    have hwf := flush_wf hw
+    cases he : (flush w).2 with
+    | some e =>
+      have : flush w = ((flush w).1, some e) := by rw [← he]
+      rw [this, closeRest_some]; exact hf
+    | none =>
+      have hst : (flush w).1.st = stWrite := by
+        rcases hw.four with hs | hs | hs | hs
+        · exact (flush_ok (Or.inl hs) he).1
+        · exact (flush_ok (Or.inr hs) he).1
+        · exact absurd hs hc
+        · rw [flush_error hs] at he; exact absurd he (hw.err hs)
+      generalize flush w = r at he hst ⊢
+      obtain ⟨w1, e1⟩ := r
+      dsimp only at he hst
+      subst he
+      unfold closeRest
+      dsimp only
+      have hcw := closeW_st w1
+      generalize closeW w1 = q at hcw ⊢
+      obtain ⟨w2, e2⟩ := q
+      dsimp only at hcw ⊢
+      cases e2 with
+      | some e => rw [next_some]; show stError ≠ stNew; decide
+      | none => rw [next_none]; show writerStates w2.st ≠ stNew; rw [hcw.1, hst]; decide
+
+theorem readFrom_ne_new {w : W} (hw : WF w) (src : Source) : (readFrom w src).1.st ≠ stNew := by
+  rcases hw.four with hs | hs | hs | hs
+  · rw [readFrom_new hs]
+    have := initNext_ne_new hs
+    generalize init w = r at this ⊢
+    obtain ⟨w1, e⟩ := r
+    dsimp only at this ⊢
+    generalize next w1 e = r2 at this ⊢
+    obtain ⟨w2, bad⟩ := r2
+    dsimp only at this ⊢
+    split
+    · exact this
+    · exact rfGo_ne_new this src
+  · rw [readFrom_write hs]; show stError ≠ stNew; decide
+  · rw [readFrom_closed hs]; show w.st ≠ stNew; rw [hs]; decide
+  · rw [readFrom_error hs]; show w.st ≠ stNew; rw [hs]; decide
+
+/-- in the new state nothing is saved (`Reset` has cleared it, `init` has not yet run) -/
+theorem wstep_newClean {w : W} (hw : WF w) (h : w.st = stNew → w.savedIdx = 0) (op : WOp) :
+    (wstep w op).1.st = stNew → (wstep w op).1.savedIdx = 0 := by
+  cases op with
+  | write buf => intro h'; exact absurd h' (write_ne_new hw buf)
+  | flush => intro h'; exact absurd h' (flush_ne_new hw)
+  | close => intro h'; exact absurd h' (close_ne_new hw)
+  | readFrom src => intro h'; exact absurd h' (readFrom_ne_new hw src)
+  | reset f => intro _; rfl
+  | apply opts =>
+    show (apply w opts).1.st = stNew → (apply w opts).1.savedIdx = 0
+    rw [apply_eq]
+    split
+    · exact h
+    · split
+      · rename_i h1 h2
+        intro h'
+        exact absurd h' (check_ne_new h2 _)
+      · intro _
+        dsimp only
+        generalize apply.go (reset w w.sink.failAt).cfg opts = r
+        obtain ⟨c, e⟩ := r
+        rw [check_saved]
+        rfl
+
+theorem wrunFrom_newClean (ops : List WOp) : ∀ {w : W}, WF w → (w.st = stNew → w.savedIdx = 0) →
+    ((wrunFrom w ops).st = stNew → (wrunFrom w ops).savedIdx = 0) := by
+  induction ops with
+  | nil => intro w _ h; exact h
+  | cons op ops ih => intro w hw h; exact ih (wstep_wf hw op) (wstep_newClean hw h op)
 
 end Lz4V.Proofs.Life
